@@ -90,6 +90,10 @@ class Setting:
         if z is not None:
             out.append(z)
             out.append(C.double(C.double(z)))
+        # infinity whose z is built from FQ objects (== zero, but its coefficients are objects)
+        FQ = C.FQ
+        out.append((FQ2.one(), FQ2.one(), FQ2([FQ(0), FQ(0)])))
+        out.append((FQ2([FQ(2), FQ(3)]), FQ2([FQ(1), FQ(0)]), FQ2([FQ(0), FQ(0)])))
         return out
 
     def co(self, x):
